@@ -233,7 +233,32 @@ def r12_3(ctx):
     ctx.end()
 
 
+def r12_4(ctx):
+    """'earliest finish = earliest start + remaining work ... slack is never negative': the passes relax `est`/`eft` upwards from the
+    reset value t, which is right only while no task carries *negative* remaining work into the update.  In a finish-to-start
+    network a task whose work is used up is FINISHED at the next finish check, and that check stores remaining work 0 with the
+    state -- otherwise an overshoot (2.5 units of work done in steps of 1) stays negative for the rest of the run."""
+    ctx.begin("R12.4", "the finish check stores remaining_work_amount = 0 together with FINISHED", floor=1)
+    g = ctx.repo.method(WORKFLOW, "check_state")
+    I = mk_interp(ctx, inline=lambda call, callee, depth: callee.cls == WORKFLOW)
+    n = 0
+    for st, ex in I.run_function(g, bind={"state": E(TS, "FINISHED"), "time": Poly.sym("t")}):
+        for lp in [e for e in flatten(st.trace, into_loops=False) if isinstance(e, Loop)] + [e for e in flatten(st.trace) if isinstance(e, Loop)]:
+            for tr, ex2 in lp.alts:
+                fin = [e for e in tr if isinstance(e, Store) and e.attr == "state" and e.cls == TASK and isinstance(e.value, EnumSet) and e.value.single() == "FINISHED"]
+                for e in fin:
+                    n += 1
+                    zero = [z for z in tr if isinstance(z, Store) and z.attr == "remaining_work_amount" and z.recv == e.recv and isinstance(z.value, Poly) and z.value.is_const() and z.value.const_value() == 0]
+                    ctx.instance(construct(g, "finish-branch"), sample={"zeroed": bool(zero)})
+                    if not zero:
+                        ctx.violation(construct(g, "finish-without-zero"), e.loc, "a task is set FINISHED without its remaining_work_amount being set to 0 in the same branch: "
+                                      "an overshoot stays negative, and the PERT passes (which only relax upwards from the current time) leave stale earliest finishes on its successors")
+    ctx.require(n >= 1, "no store of FINISHED found in the finish check")
+    ctx.end()
+
+
 def run(ctx):
+    r12_4(ctx)
     r12_1(ctx)
     r12_2(ctx)
     r12_2b(ctx)
